@@ -48,7 +48,7 @@ class AssemblyManager(object):
     def _generate_modules_map(self):
         modmap = {}
         for mod in self.modules:
-            m = modmap.setdefault(mod.overhang_start().upper(), mod)
+            m = modmap.setdefault(Seq(str(mod.overhang_start()).upper()), mod)
             if m is not mod:
                 details = "same start overhang: '{}'".format(m.overhang_start())
                 raise errors.DuplicateModules(m, mod, details=details)
@@ -61,12 +61,12 @@ class AssemblyManager(object):
 
     def _generate_assembly(self, modmap):
         try:
-            overhang_next = self.vector.overhang_end().upper()
+            overhang_next = Seq(str(self.vector.overhang_end()).upper())
             assembly = SeqRecord(Seq(""))
             while overhang_next != self.vector.overhang_start().upper():
                 module = modmap.pop(overhang_next)
                 assembly += module.target_sequence()
-                overhang_next = module.overhang_end().upper()
+                overhang_next = Seq(str(module.overhang_end()).upper())
         except KeyError as ke:
             raise six.raise_from(errors.MissingModule(ke.args[0]), None)
         if modmap:
